@@ -109,9 +109,19 @@ class UnusedTranslator:
                 self.used.add(pred)
                 self.used_positions[pred].update(range(0, stm.arity))
 
-        for pred in chain(self.input_predicates, self.output_predicates):
+        for pred in chain(self.input_predicates, self.output_predicates, self._directive_predicates(prg)):
             self.used.add(pred)
             self.used_positions[pred].update(range(0, pred.arity))
+
+    @staticmethod
+    def _directive_predicates(prg: list[AST]) -> set[Predicate]:
+        """predicates inside statements that are passed through as they are (#edge, #heuristic, #external, ...)"""
+        ret: set[Predicate] = set()
+        for stm in prg:
+            if stm.ast_type not in (ASTType.Rule, ASTType.Minimize, ASTType.Program):
+                for func in collect_ast(stm, "Function"):
+                    ret.add(Predicate(func.name, len(func.arguments)))
+        return ret
 
     def _new_name(self, orig_pred: Predicate, new_pred: Predicate) -> str:
         key = (orig_pred, new_pred)
@@ -249,8 +259,9 @@ class UnusedTranslator:
         mapping: dict[Predicate, "UnusedTranslator.Mapper"] = {}
         rd = RuleDependency(prg)
 
+        directive_predicates = self._directive_predicates(prg)
         for head in rd.get_headderivable_predicates():
-            if head in self.input_predicates or head in self.output_predicates:
+            if head in self.input_predicates or head in self.output_predicates or head in directive_predicates:
                 continue
 
             rules = rd.get_rules_that_derive(head)
